@@ -29,15 +29,21 @@ def _checksum(b: bytes, field_off: int) -> int:
     return (~sum(b[:field_off] + b[field_off + 4:])) & 0xFFFFFFFF
 
 
-def footer(size, disk_type, data_offset, length=512, original_size=None):
+def footer(size, disk_type, data_offset, length=512, original_size=None, stale=False):
     """original_size (size at creation) differs from the current size in every image built here, as after a resize: smaller
     for even sector counts, larger for odd ones; only the current size describes the disk."""
     if original_size is None:
         original_size = max(512, size // 1024 * 512) if (size // 512) % 2 == 0 else size + 0x7700
     # features: bit 1 is reserved and always set; bit 0 (Temporary) is a documented flag that says nothing about the layout
     features = 3 if (size // 512) % 3 == 0 else 2
+    uid = b"\x5a" * 16
+    if stale:
+        # the copy of the footer at the start of a dynamic disk is a backup for a damaged footer: here it still describes the
+        # disk as it was before a resize / re-identification (intact checksum); the footer at the end is the one that counts
+        uid = b"\xa5" * 16
+        size = max(512, size - 512 * 7)
     raw = struct.pack(FOOTER, b"conectix", features, 0x00010000, data_offset, 0x2B3C4D5E, b"vrf ", 0x00010000, b"Wi2k", original_size,
-                      size, 0x03FF103F, disk_type, 0, b"\x5a" * 16, 0).ljust(512, b"\0")
+                      size, 0x03FF103F, disk_type, 0, uid, 0).ljust(512, b"\0")
     raw = raw[:64] + struct.pack(">I", _checksum(raw, 64)) + raw[68:]
     return raw[:length]
 
@@ -95,7 +101,7 @@ def build_dynamic(states, slots, spb, size=None, max_entries=None, layout="std",
         ents.append(0xFFFFFFFF if st == HOLE else first + p * stride)
     ents += [0xFFFFFFFF] * (max_entries - n)
     img = Image("vhd-dyn")
-    img.put(0, footer(size, 3, hdr_off))
+    img.put(0, footer(size, 3, hdr_off, stale=True))
     dyn = struct.pack(DYN, b"cxsparse", FIXED_OFF, bat_off, 0x00010000, max_entries, bs, 0, b"", 0, 0, b"").ljust(1024, b"\0")
     dyn = dyn[:36] + struct.pack(">I", _checksum(dyn, 36)) + dyn[40:]
     old_hdr_off = hdr_off
@@ -117,7 +123,7 @@ def build_dynamic(states, slots, spb, size=None, max_entries=None, layout="std",
         assert hdr_at >= end or (bat_off + bat_len <= hdr_at and hdr_at + 1024 <= first * 512), "header overlaps"
         hdr_off = hdr_at
         img.ext = [e for e in img.ext if e[0] != 0]
-        img.put(0, footer(size, 3, hdr_off))
+        img.put(0, footer(size, 3, hdr_off, stale=True))
         img.put(hdr_off, dyn)
         end = max(end, hdr_off + 1024 + (-(hdr_off + 1024)) % 512)
     img.put(end, footer(size, 3, hdr_off, footer_len))
